@@ -23,9 +23,15 @@ RULE = ("each case = one synthetic in-memory dataset (1-3 instruments, 1-12 / 13
         "together with TRADING plans, plan quantities that fit the balances exactly or exceed them by one (sell 99 / 100 / 101 of base 100; buy 2000 / 2001 @ 50, 1000 / 1001 @ 100, 1960 / 1961 @ 51 of quote 100000), every eighth case an "
         "EMPTY dataset (MarketDataInMemory::new panics: `panic`), every eighth a `run 0 w`; cases LX<c>_<n> (2 quick / 12 thorough, n in {3,257,2049,4097}) = longdata with ONE instrument, tm = 0 (one exchange time for the whole "
         "dataset), pm = 1 (one price per instrument), every other element a marker (rp = 2, marker first / Item first) and rp = 1 (markers only: `panic`). "
+        "TRACKED-BUT-NOT-TRADED exchanges (`tracked t x` before the dataset op: the last t of its k instruments live on x exchanges - Okx, Kraken - for which the backtest gets NO ExecutionConfig, "
+        "MultiExchangeTxMap = None; t = k: the `executions` list is EMPTY; markers name their exchange: `R` traded, `R1`, `R2`; in `longdata` the markers take turns over the exchanges): every run adds, from an own PRNG stream, cases T<n> "
+        "(5 quick / 20 thorough: 2-4 instruments, 1-2 tracked on 1-2 untraded exchanges, every fifth case ALL instruments tracked with passive strategies; 3-40 or 200-600 Items, half of them of tracked instruments, markers of every exchange "
+        "before / between / after the Items, always one Item of a tracked instrument and one marker of an untraded exchange; every sixth paced `data_slow`) and TL<n> (2 / 6: `longdata` of 257 / 4097 / 8193 / 20000 events), "
+        "1-3 plans (passive, or 1-4 market orders on TRADED instruments only, triggered by the count of Items of ALL instruments), `run 1 w` and `run m w` with m in {2,3,4,8}; corpus/C20/tracked_exchange.ops holds five of them. "
+        "`seen` / `inst` / `lseen` / `linst` cover all instruments and all exchanges' markers (`seen` prints `R` / `R1` / `R2`; `lmark b c0 .. cx` = disconnect notices per exchange for long datasets). "
         "A case is distinct by the SHA-1 of its op lines and non-trivial when the observation blocks differ")
 ASSUMPTIONS = [
-    "MarketDataInMemory datasets of Items (any DataKind; the random and long families use trades only) and Reconnecting markers with at least one Item (MarketDataInMemory::new panics otherwise - empty and marker-only datasets; harness, model and spec all report `panic`); one mock exchange, zero fees, latency_ms = 0 (fees incl. rebates and latencies are C20E's inputs); initial balances fixed (base 100, quote 100000: Model/Backtest.initBals), no initial position; integer prices and quantities",
+    "MarketDataInMemory datasets of Items (any DataKind; the random and long families use trades only) and Reconnecting markers with at least one Item (MarketDataInMemory::new panics otherwise - empty and marker-only datasets; harness, model and spec all report `panic`); at most one TRADED exchange (one mock execution link; none when every instrument is tracked-only) plus 0-2 tracked-but-not-traded exchanges without ExecutionConfig, zero fees, latency_ms = 0; strategies send requests for instruments of the traded exchange only (a request to an exchange without link is another error path of the engine) (fees incl. rebates and latencies are C20E's inputs); initial balances fixed (base 100, quote 100000: Model/Backtest.initBals), no initial position; integer prices and quantities",
     "trading enabled from the start and never disabled; no Command / TradingStateUpdate is sent during a backtest",
     "the engine state handed to the backtests already carries the exchange's initial balances (as in the repo's example config), so the initial account snapshot is idempotent",
     "the engine is an arbitrary deterministic function of its state and event (strategy, risk manager, recorders included); a strategy with interior randomness or wall-clock reads is outside the model",
@@ -60,6 +66,8 @@ LEVEL_NOTE = ("Trusted: Lean kernel; axioms propext/Classical.choice/Quot.sound 
               "long_digest_of_dataset / long_digest_ok_iff_dataset: the digest is clean exactly when the processed stream is the dataset), the spec states n / order=ok / dups=0 / skipped=0 / hash / requests from the op alone. "
               "The theorems never bound the dataset length (ds : List mu arbitrary); the fills / positions / balances / PnL of a trading strategy stay schedule dependent on long datasets too (same known finding), so what pins the "
               "summary there is `lreqs` (what the strategy decided, at which prices) + `own` + `alone`. "
+              "Execution links: the model's market forwarder never looks at the execution side, so market_view_independent_of_execution_links / consumes_all_whatever_the_links state that the engine is fed the whole dataset - the events of exchanges "
+              "WITHOUT execution link included (`tracked t x` cases; linkedExchange = an execution side that never answers requests for unlinked exchanges; an empty `executions` list = no link at all) - and that the recorded market view is the same for any two sets of links. "
               "Honesty notes (independent review C20-1/2): `isolation` is true by construction of the product system (a list-update lemma over N machines that share nothing), so its content is the "
               "assumption that the Rust backtests share nothing mutable, which only the correspondence run probes; and a backtest whose engine stops on a fatal error makes shutdown_after_backtest panic "
               "(`Engine cannot drop Feed receiver`), which unwinds try_join_all and aborts the whole run_backtests batch - isolation is broken in the code there, not in the model (not in the corpus either).")
@@ -85,8 +93,12 @@ def signature(ops, k, key, impl_line, spec_line):
         if impl_line.split()[-1:] == ["X"]:
             return "clause=alone/unexplained"
         return "clause=alone/strategy=" + _strategy_class(ops, k, impl_line if impl_line != "<missing>" else spec_line)
+    # tracked-but-not-traded exchanges (`tracked t x`): the market-side clauses carry the suffix
+    trk = "/tracked_exchange" if any(o.startswith("tracked") for o in ops) else ""
     if key in ("seen", "inst"):
-        return "clause=consumes_all/" + key
+        return "clause=consumes_all/" + key + trk
+    if key == "lmark":
+        return "clause=consumes_all/long_dataset/lmark" + trk
     if key in ("lseen", "linst", "lreqs"):
         # long dataset (`longdata`): which figure of the digest is off
         def kvs(line):
@@ -94,15 +106,15 @@ def signature(ops, k, key, impl_line, spec_line):
         if key == "lseen":
             a, b = kvs(impl_line), kvs(spec_line)
             if impl_line == "<missing>" or not a:
-                return "clause=consumes_all/long_dataset/missing"
+                return "clause=consumes_all/long_dataset/missing" + trk
             if a.get("dups") != b.get("dups"):
-                return "clause=consumes_all/long_dataset/duplicated"
+                return "clause=consumes_all/long_dataset/duplicated" + trk
             if a.get("skipped") != b.get("skipped") or a.get("n") != b.get("n"):
-                return "clause=consumes_all/long_dataset/skipped"
+                return "clause=consumes_all/long_dataset/skipped" + trk
             if a.get("order") != b.get("order"):
-                return "clause=consumes_all/long_dataset/order"
-            return "clause=consumes_all/long_dataset/content"
-        return "clause=consumes_all/long_dataset/" + key
+                return "clause=consumes_all/long_dataset/order" + trk
+            return "clause=consumes_all/long_dataset/content" + trk
+        return "clause=consumes_all/long_dataset/" + key + trk
     if key == "own":
         return "clause=summary_own_engine"
     return "clause=" + key
